@@ -51,6 +51,10 @@ def _record(cfg, nsub, bpf, pin, seed, stem, template=False):
             raise SharedStage('stage objects expanded from a template are shared between antennas / polarisations')
     for fn in guppi.list_files(stem):
         os.remove(fn)
+    # the first output file name is already taken by a leftover of some earlier run (not a RAW file at all): a recording
+    # replaces what is there
+    with open(stem + '.0000.raw', 'wb') as f:
+        f.write(b'\x55' * 1000)
     be.record(output_file_stem=stem, num_blocks=cfg['nb'], length_mode='num_blocks', header_dict={},
               digitize=cfg['digitize'], load_template=False, verbose=False)
     return be, src, dig, fb, rq
@@ -85,8 +89,7 @@ def _verify1(cfg, nsub, bpf, pin, seed, stem, V, res, objs, rec, template=False)
             for row in dig + rq:
                 for q in row:
                     del q.calls[:]
-            for fn in guppi.list_files(stem):
-                os.remove(fn)
+            # the second recording of the same backend goes to the SAME stem, over the files of the first
             be.record(output_file_stem=stem, num_blocks=cfg['nb'], length_mode='num_blocks', header_dict={},
                       digitize=cfg['digitize'], load_template=False, verbose=False)
     except SharedStage as e:
